@@ -5,6 +5,11 @@ ROOT = os.path.dirname(os.path.dirname(os.path.abspath(__file__)))
 props = [json.loads(l)["id"] for l in open(os.path.join(ROOT, "properties.jsonl"))]
 
 CHECKS = {
+ "C01": dict(
+  technique="systematic enumeration of a family of small topologies + proptest random topologies, run through the repository's own pipeline (pocketscion control plane -> signed segments -> SDK combinator) for every ordered AS pair; oracle = an independently written MAC-verifying reference border router (scionproto processing order, each AS's own key) walking every offered path and the reversal of the path as received; completeness oracle = reference beacons joined by a brute-force reference combinator",
+  text="Exploration with an exhaustively enumerated core in the thorough tier (~11 000 small topologies, rotating 1/11 slice per quick run) plus random topologies up to 3 ISDs / 16 ASes with peering and parallel links, colliding interface numbers and per-AS random keys: every path returned by SegmentRegistry::paths(src,dst) must be delivered at dst by the reference router along exactly the interfaces of its metadata; the path as received, reversed by ScionPath::try_reverse, must be delivered back at src; and whenever the topology's segments can be joined by the reference combinator at least one path must be offered.",
+  note="Forwardability is judged by the reference router, not by pocketscion's simulator (C13 compares those two); hop expiry is the pipeline's fixed 255 units and the reference clock is segment timestamp + 30 s; the daemon/endhost-API transport between control plane and SDK is not in the loop.",
+  design="DESIGN.md §3 C01"),
  "C02": dict(
   technique="enumeration of the size-determining header fields x truncation points + proptest shaped/random/mutated buffers, each view placed exactly against inaccessible guard pages (before and after) in a debug-assertion build and in a release build; differential on acceptance and reported size against an independent decoder; invariant: safe accessors/mutators never change the layout or write outside the view",
   text="Exploration with exhaustively enumerated cores: path type x all 256 address type/length nibble pairs x segment-length triples ({0,1,2,3,31,62,63}^3 quick, all 2^18 thorough) x HdrLen variants x truncation at every field boundary; every constructor (slice, mut slice, boxed) of every view type; the crate's exec_every_view_function plus generated sequences of safe accessors/mutators run on the exact view bytes bounded by PROT_NONE pages, so any out-of-view access faults (reported by a SIGSEGV handler with the replay case). Run twice: with debug assertions/overflow checks and as plain release build.",
